@@ -253,8 +253,15 @@ def run(repo: Repo, L: Ledger, tier: str):
     # row iteration is over the unfiltered rows list, header lines do not interleave
     loops = [n for n in walk_shallow(fmt.node) if isinstance(n, ast.For)]
     row_loops = [l for l in loops if "rows" in norm(l.iter)]
-    ok5 = len(row_loops) == 1 and norm(row_loops[0].iter).replace(" ", "") in (f"enumerate({norm(row_loops[0].iter).split('(')[1].split('.')[0]}.rows)".replace(" ", ""),) if row_loops else False
-    L.check(bool(row_loops) and ok5, "O5", f"{fmt.short}:rows", "rows enumerated unfiltered from index 0", f"row loop iterates over '{norm(row_loops[0].iter) if row_loops else None}' (must be enumerate(<scaffold>.rows))", fmt.loc())
+    ok5 = False
+    if len(row_loops) == 1:
+        it = row_loops[0].iter
+        # enumerate(<scaffold>.rows) from 0, or a plain loop over <scaffold>.rows (part counter checked symbolically above)
+        if isinstance(it, ast.Call) and dotted(it.func) == "enumerate" and len(it.args) >= 1 and norm(it.args[0]).endswith(".rows") and isinstance(it.args[0], ast.Attribute):
+            ok5 = True
+        elif isinstance(it, ast.Attribute) and it.attr == "rows":
+            ok5 = True
+    L.check(bool(row_loops) and ok5, "O5", f"{fmt.short}:rows", "rows iterated unfiltered, in order", f"row loop iterates over '{norm(row_loops[0].iter) if row_loops else None}' (must be the scaffold's rows, unfiltered)", fmt.loc())
 
     # ---- O9 single writer
     callers = repo.callers_of(fmt)
